@@ -23,6 +23,9 @@ type LogSpec struct {
 	Topics  []common.Hash
 	Data    []byte
 	Removed bool
+	// Orphan: the log is served with the hash of a block that is NOT the canonical block of that
+	// number (what a node reports for a log of a reorged-away block, together with Removed).
+	Orphan bool
 }
 
 // Block is one block of the chain.
@@ -116,9 +119,13 @@ func (c *Chain) LogsOf(n uint64) []types.Log {
 	b := c.Blocks[n]
 	out := make([]types.Log, 0, len(b.Logs))
 	for i, l := range b.Logs {
+		bh := b.header.Hash()
+		if l.Orphan {
+			bh = crypto.Keccak256Hash([]byte("orphaned-block"), bh[:])
+		}
 		out = append(out, types.Log{Address: l.Address, Topics: l.Topics, Data: l.Data, BlockNumber: n,
 			TxHash: crypto.Keccak256Hash([]byte(fmt.Sprintf("tx-%d-%d-%d", n, b.Salt, i))), TxIndex: uint(i),
-			BlockHash: b.header.Hash(), Index: uint(i), Removed: l.Removed})
+			BlockHash: bh, Index: uint(i), Removed: l.Removed})
 	}
 	return out
 }
